@@ -320,12 +320,27 @@ func runLayoutCase(lc LayoutCase) (viol []string, labels []string) {
 			bad("store unreadable before init: %v", err)
 			return
 		}
-		for _, how := range []string{"cwd", "arg"} {
+		hows := []string{"cwd", "arg"}
+		if start == target {
+			for _, sp := range lc.Spellings {
+				hows = append(hows, "spelling:"+sp)
+			}
+		}
+		for _, how := range hows {
 			var r Res
-			if how == "cwd" {
+			switch {
+			case how == "cwd":
 				r = Run(Cmd{Args: []string{"--json", "init"}, Dir: target})
-			} else {
+			case how == "arg":
 				r = Run(Cmd{Args: []string{"--json", "init", target}, Dir: "/"})
+			default:
+				// init addressed the way every other command is: whatever it does with --dir, the
+				// store must read the same afterwards through every spelling
+				cwd, dargs, ok := spell(start, target, strings.TrimPrefix(how, "spelling:"))
+				if !ok || cwd != target {
+					continue
+				}
+				r = runAt(cwd, dargs, "", "--json", "init")
 			}
 			if !r.OK() {
 				bad("init (%s) on an existing store fails: %s", how, clip(r.Stderr, 160))
@@ -338,6 +353,18 @@ func runLayoutCase(lc LayoutCase) (viol []string, labels []string) {
 			}
 			for _, d := range DiffSnap(before, after, DiffOpts{}) {
 				bad("init (%s) on a store with layout %q changed or hid an item: %s", how, lc.Files, d)
+			}
+			for _, sp := range lc.Spellings {
+				cwd, dargs, ok := spell(start, target, sp)
+				if !ok {
+					continue
+				}
+				ids, rl := listIDs(cwd, dargs)
+				if !rl.OK() {
+					bad("after init (%s) list via %s fails: %s", how, sp, clip(rl.Stderr, 120))
+				} else if len(ids) != len(before.Tasks()) {
+					bad("after init (%s) list via %s shows %d tasks, the store has %d", how, sp, len(ids), len(before.Tasks()))
+				}
 			}
 		}
 	}
